@@ -66,6 +66,11 @@ def do_call(it, e, fr):
     kwargs = {}
     for k in e.keywords:
         if k.arg is None:
+            if opaque:
+                # f(..., **d) in sweep mode: the mapping is evaluated (its construction carries its own obligations), the
+                # callee is then treated as one without contract
+                it.eval(k.value, fr)
+                return opaque_result(it, dotted, fr)
             raise Unsupported('**kwargs call')
         kwargs[k.arg] = it.eval(k.value, fr)
     if not opaque:
@@ -656,6 +661,8 @@ def b_bytes(it, args, kwargs, fr, node):
         return ctx.fresh_bytes('encoded')
     if isinstance(v, bytes):
         return VBytes.lit(v)
+    if isinstance(v, VObj) and v.fields.get('opaque!'):
+        return ctx.fresh_bytes(f'bytes({v.name})', 'bytes')
     raise Unsupported(f'bytes() of {type(v).__name__}')
 
 
@@ -915,6 +922,8 @@ def b_zip(it, args, kwargs, fr, node):
 
 def b_any_all(which):
     def h(it, args, kwargs, fr, node):
+        if isinstance(args[0], VObj) and args[0].fields.get('opaque!'):
+            return it.ctx.fresh(f'{which}({args[0].name})', z3.BoolSort())
         items = [truthy(it.ctx, x) for x in it.iter_static(args[0])]
         return simp(z_or(*items)) if which == 'any' else simp(z_and(*items))
 
@@ -923,12 +932,21 @@ def b_any_all(which):
 
 def b_sum(it, args, kwargs, fr, node):
     t = args[1] if len(args) > 1 else 0
+    if isinstance(args[0], VSeq) or (isinstance(args[0], VObj) and args[0].fields.get('opaque!')):
+        # a sum over a sequence of symbolic length: an unconstrained integer (over-approximation, sound for safety)
+        return it.ctx.fresh('sum')
     for x in it.iter_static(args[0]):
         t = simp(t + x)
     return t
 
 
 def b_set(it, args, kwargs, fr, node):
+    if not args and it.sweep_mode():
+        # a set which the code goes on to fill: an unconstrained container (add() is a call without contract,
+        # membership an unconstrained boolean) -- a tuple model would stay empty across a loop cut
+        from .interp import opaque_like
+
+        return opaque_like(it.ctx, 'set()')
     if not args:
         return VTuple(())
     v = args[0]
@@ -1011,6 +1029,9 @@ def call_method_builtin(it, recv, name, args, kwargs, fr, node):
     if isinstance(recv, VBytes):
         if name == 'tobytes':
             return VBytes(recv.pieces, 'bytes')
+        if name == 'join' and isinstance(args[0], VObj) and args[0].fields.get('opaque!'):
+            # join of an unconstrained list (one the loop cut havocked): some bytes
+            return ctx.fresh_bytes('joined', 'bytes')
         if name == 'join':
             out = VBytes([])
             items = it.iter_static(args[0])
